@@ -165,7 +165,7 @@ def generate(seed, tier):
         elif r < 0.55:
             ops.append(["compute"])
         elif r < 0.8:
-            ops.append(["single", round(rw.uniform(0, 0.5), 5), rw.randrange(1, min(N, 40 if sim else N) + 1)])
+            ops.append(["single", round(rw.uniform(0, 0.5), 5), rw.choice([1, 2, 2, 3]) if rw.random() < 0.15 else rw.randrange(1, min(N, 40 if sim else N) + 1)])
         else:
             ops.append(["construct2"])
     # the faults may also arrive *during* the history: the caller's buffer is analysed while still clean, then the
